@@ -213,4 +213,7 @@ AfterMulti(C, mem, r, rpy) ==
        ELSE Chain(C, {mem}, r.ms, rs)
 
 After(C, mem, r, rpy) == IF r.svc = "multi" THEN AfterMulti(C, mem, r, rpy) ELSE After1(C, mem, r, rpy)
+
+ZeroValOf(t) == IF Size(t) = 0 THEN <<>> ELSE Zeros(Size(t))
+ZeroMemOf(C) == [ t \in 1 .. Len(C.tags) |-> [ i \in 1 .. C.tags[t].len |-> ZeroValOf(C.tags[t].type) ] ]
 =============================================================================
